@@ -307,7 +307,22 @@ class Interp:
             if r >= lim: r -= 1 << bits
         return r
     def rne(s, x): return symcore.rne(x)
+    # ---- IEEE mode: a value that is a z3 FP term keeps bit-exact float semantics through fadd/fsub/fmul/fdiv/fcmp/fpext/fptrunc/floor/fptosi
+    # (round to nearest even); everything else stays in the real model.  Used for kernels whose memory safety depends on rounding.
+    @staticmethod
+    def isfp(x): return isinstance(x, z3.FPRef)
+    @staticmethod
+    def tofp(x, sort):
+        if isinstance(x, z3.FPRef): return x if x.sort() == sort else z3.fpFPToFP(z3.RNE(), x, sort)
+        if isinstance(x, (int, Fraction)) and not isinstance(x, bool):
+            f = float(x)
+            if Fraction(f) != Fraction(x): raise NotImplementedError("constant %s is not a float" % x)
+            v = z3.FPVal(f, z3.Float64()); return v if sort == z3.Float64() else z3.fpFPToFP(z3.RNE(), v, sort)
+        raise NotImplementedError("mixing a real-model value with an IEEE value")
     def fbin(s, op, a, b, ins):
+        if s.isfp(a) or s.isfp(b):
+            a = s.use(a, ins); b = s.use(b, ins); sort = a.sort() if s.isfp(a) else b.sort(); A, B = s.tofp(a, sort), s.tofp(b, sort); rm = z3.RNE()
+            return {"fadd": z3.fpAdd, "fsub": z3.fpSub, "fmul": z3.fpMul, "fdiv": z3.fpDiv}[op](rm, A, B)
         MAGIC = Fraction(6755399441055744)
         if isinstance(a, tuple) and a[0] == "magic":
             if op == "fsub" and b == MAGIC or op == "fadd" and b == -MAGIC: return s.rne(a[1])
@@ -358,6 +373,12 @@ class Interp:
                "olt": lambda x, y: x < y, "ole": lambda x, y: x <= y, "ogt": lambda x, y: x > y, "oge": lambda x, y: x >= y,
                "ult_f": None}
         f = ops[pred]
+        if s.isfp(a) or s.isfp(b):
+            sort = a.sort() if s.isfp(a) else b.sort(); A, B = s.tofp(a, sort), s.tofp(b, sort); un = z3.Or(z3.fpIsNaN(A), z3.fpIsNaN(B))
+            o = {"eq": z3.fpEQ, "ne": lambda x, y: z3.Not(z3.fpEQ(x, y)), "lt": z3.fpLT, "le": z3.fpLEQ, "gt": z3.fpGT, "ge": z3.fpGEQ}[pred[1:]](A, B)
+            if pred == "one": return z3.And(z3.Not(un), o)
+            if pred == "une": return z3.Or(un, o)
+            return z3.And(z3.Not(un), o) if pred[0] == "o" else z3.Or(un, o)
         if is_sym(a) or is_sym(b):
             if isf: a, b = to_real(a), to_real(b)
             else:
@@ -422,6 +443,8 @@ class Interp:
             c, sn = symcore.trig(s.use(a[0], ins)); return c if name == "cos" else sn
         if name == "atan2":
             return symcore.ATAN2(to_real(s.use(a[0], ins)), to_real(s.use(a[1], ins)))
+        if name in ("llvm.fabs.f64", "fabs", "llvm.fabs.f32", "fabsf") and s.isfp(a[0]): return z3.fpAbs(s.use(a[0], ins))
+        if name in ("llvm.floor.f64", "floor", "floorf", "llvm.floor.f32") and s.isfp(a[0]): return z3.fpRoundToIntegral(z3.RTN(), s.use(a[0], ins))
         if name in ("llvm.fabs.f64", "fabs", "llvm.fabs.f32"):
             x = s.use(a[0], ins)
             return abs(x) if not is_sym(x) else z3.If(x >= 0, x, -x)
@@ -539,7 +562,7 @@ class Interp:
                     ty, a = s.typed(env, parts[0]); b = s.val(env, ty, parts[1])
                     env[ins.res] = s.fbin(op, a, b, ins)
                 elif op == "fneg":
-                    ty, a = s.typed(env, t[5:]); a = s.use(a, ins); env[ins.res] = -a
+                    ty, a = s.typed(env, t[5:]); a = s.use(a, ins); env[ins.res] = z3.fpNeg(a) if s.isfp(a) else -a
                 elif op in ("icmp", "fcmp"):
                     m = re.match(r"[if]cmp (\w+) (.*)", t); parts = split_top(m.group(2))
                     ty, a = s.typed(env, parts[0]); b = s.val(env, ty, parts[1])
@@ -550,7 +573,14 @@ class Interp:
                 elif op in ("sext", "zext", "trunc", "bitcast", "fpext", "fptrunc", "sitofp", "uitofp", "fptosi", "fptoui", "ptrtoint", "inttoptr"):
                     m = re.match(r"\w+ (.*) to (.*)", t); ty, a = s.typed(env, m.group(1)); to = parse_type(m.group(2))[0]
                     a = s.use(a, ins) if op != "bitcast" else a
-                    if op in ("sext", "bitcast", "fpext", "fptrunc"): r = a
+                    if op in ("fpext", "fptrunc") and s.isfp(a): r = z3.fpFPToFP(z3.RNE(), a, z3.Float64() if to == "double" else z3.Float32())
+                    elif op in ("fptosi",) and s.isfp(a):
+                        bits = int(to[1:]); srt = a.sort()
+                        inr = z3.And(z3.Not(z3.fpIsNaN(a)), z3.fpLT(a, s.tofp(Fraction(1 << (bits - 1)), srt)), z3.fpGT(a, s.tofp(Fraction(-(1 << (bits - 1)) - (1 << 8 if srt == z3.Float32() and bits == 32 else 1)), srt)))
+                        if s.ex.feasible([z3.Not(inr)]):
+                            s.report("float-to-int-out-of-range", "fptosi to i%d (IEEE mode)" % bits, ins); s.ex.pc.append(inr)
+                        r = z3.BV2Int(z3.fpToSBV(z3.RTZ(), a, z3.BitVecSort(bits)), is_signed=True)
+                    elif op in ("sext", "bitcast", "fpext", "fptrunc"): r = a
                     elif op == "zext":
                         if isinstance(a, bool): r = int(a)
                         elif z3.is_bool(a) if is_sym(a) else False: r = z3.If(a, 1, 0)
